@@ -36,6 +36,9 @@ CLAIMED = {
     "C21": ("Coq proof (worklist order is topological and complete; evaluation sound for a declarative big-step semantics; denotation unique hence key-order independent) + differential correspondence over three scope levels",
             "C21_order_topological, C21_cycle_iff, C21_value_and_scoping, C21_denotation_unique, C21_key_order_irrelevant for every object of integer definitions; the real Spec evaluation is run on random DAGs/cycles in Spec.variables, arch.variables and component attributes and compared with the model and a Python oracle.",
             "Coq kernel; integer arithmetic fragment; Python eval trusted; self-reference resolves to the enclosing scope (documented reading)"),
+    "C22": ("Coq proof (InvertibleSet evaluation = set algebra with complement within the Einsum's tensors, for every expression tree; Other-key dictionaries disjoint and covering) + differential correspondence",
+            "C22_algebra, C22_closed, C22_named_sets, C22_other_partition for all expressions/workloads; the real eval_set_expression / eval_set_expression_dict / tensors.keep evaluation are compared with the model and a set-algebra oracle on random workloads and trees, two renderings per tree.",
+            "Coq kernel; Python eval and operator precedence trusted (both renderings compared); rank-variable spaces outside the model"),
 }
 
 PENDING_REASON = "check not built yet in this round (planned, see DESIGN.md section 6); not claimed until its proof and correspondence exist"
